@@ -5,7 +5,7 @@ import numpy as np
 
 from symx.core import land, lor, lnot, implies, iff
 from ._tree import build, go_symbolic, count_true, digest, val, instrument
-from .tstep import _tree_invariant, _counts
+from .tstep import _tree_invariant, _counts, _c02_end_to_end, _best
 
 
 def make_gsc(kind, w):
@@ -43,8 +43,9 @@ def make_gsc(kind, w):
 
 
 def h_run(P, kinds, props, steps=3, mech="nbc", hibernation=True, L=2, generations=2, gsc="false", use_run=False, maximize=False,
-          max_consultations=40, pop=4, seed=1):
-    w = build(P, kinds, [], L=L, hibernation=hibernation, generations=generations, mech=mech, warm=0, maximize=maximize, pop=pop, seed=seed)
+          max_consultations=40, pop=4, seed=1, objective="smooth"):
+    w = build(P, kinds, [], L=L, hibernation=hibernation, generations=generations, mech=mech, warm=0, maximize=maximize, pop=pop, seed=seed,
+              objective=objective)
     tree = w.tree
     w.sym_cma_stop = False
     go_symbolic(w, free_flags=False)
@@ -90,6 +91,8 @@ def h_run(P, kinds, props, steps=3, mech="nbc", hibernation=True, L=2, generatio
             P.oblige("C01.every_evaluated_point_in_box", all(all(lo[j] <= x[j] <= hi[j] for j in range(len(lo))) for (_, _, x, _) in w.log.entries))
             P.oblige("C01.every_stored_genome_and_seed_in_box", all(bool(np.all(i.genome >= lo) and np.all(i.genome <= hi)) for _, d in tree.all_demes for g in d.history for i in g)
                      and all(d._sprout_seed is None or bool(np.all(d._sprout_seed.genome >= lo) and np.all(d._sprout_seed.genome <= hi)) for _, d in tree.all_demes))
+        if "C02" in props:
+            _c02_end_to_end(P, w, tree)
         if "C20" in props:
             _purity(P, w, tree)
         if "C09" in props:
@@ -180,38 +183,23 @@ def _purity(P, w, tree):
         P.oblige(f"pure.{name}.same_answer_twice", a == b)
 
 
-def _best(P, w, tree, best_so_far, maximize):
-    allinds = [ind for _, d in tree.all_demes for gen in d.history for ind in gen]
-    tb = tree.best_individual
-    better = (lambda a, b: a > b) if maximize else (lambda a, b: a < b)
-    P.oblige("C04.tree_best_is_member", any(tb is x for x in allinds))
-    P.oblige("C04.tree_best_is_best", not any(better(x.fitness, tb.fitness) for x in allinds))
-    for _, d in tree.all_demes:
-        db = d.best_individual
-        mine = [ind for gen in d.history for ind in gen]
-        P.oblige("C04.deme_best_is_member_and_best", any(db is x for x in mine) and not any(better(x.fitness, db.fitness) for x in mine))
-    P.oblige("C04.best_never_worsens", not better(best_so_far[0], tb.fitness))
-    best_so_far[0] = tb.fitness
-    # the best equals the best objective value ever observed (all engines except the local optimiser)
-    if "local" not in w.kinds:
-        vals = [e[3] for e in w.log.entries]
-        P.oblige("C04.best_is_best_ever_evaluated", tb.fitness == (max(vals) if maximize else min(vals)))
-
-
 h_run.env_opts = {"rng": "real"}
 
 
 def run_cases(prop, tier, hib_values=(False, True)):
     cs = []
     steps = 4 if tier == "quick" else 7
-    combos = [(("ea", "cma"), "nbc-default", 10), (("ea", "cma"), "simple", 4), (("de", "ea", "cma"), "nbc", 4), (("ea", "local"), "nbc", 4)]
+    combos = [(("ea", "cma"), "nbc-default", 10), (("ea", "cma"), "simple", 4), (("de", "ea", "cma"), "nbc", 4), (("ea", "local"), "nbc", 4),
+              (("ea", "local"), "simple:terrace", 4)]
     if tier != "quick":
         combos += [(("shade", "cma"), "nbc", 4), (("ea", "ea", "local"), "simple", 4), (("lhs", "cma"), "nbc", 4), (("sobol", "de"), "simple", 4)]
     for kinds, mech, pop in combos:
+        mech, _, objective = mech.partition(":")
         for hib in hib_values:
             for L in ((2,) if tier == "quick" else (1, 2)):
-                cs.append(dict(name=f"run.{'-'.join(kinds)}.{mech}.hib{hib}.L{L}.steps{steps}", fn=h_run,
+                cs.append(dict(name=f"run.{'-'.join(kinds)}.{mech}{'.' + objective if objective else ''}.hib{hib}.L{L}.steps{steps}", fn=h_run,
                                params=dict(kinds=list(kinds), props=[prop], steps=steps, mech=mech, hibernation=hib, L=L, pop=pop,
+                                           objective=objective or "smooth",
                                            max_consultations=400, generations=2 if len(kinds) == 2 else 1),
                                profile="fp", budget_s=900 if tier == "quick" else 3000, max_paths=200000, weight=steps * len(kinds)))
     return cs
